@@ -472,6 +472,16 @@ def execute_case(ctx, which, case, state=None):
         sbx.run(code='print("warm")')
         sbx.run(code='zz = 2')
         sandbox.clear_context()
+    elif pos == 'the-same-execution-before' and kind != 'timeout':
+        # the very same execution was already done once on this sandbox (an instructor re-running the program with other
+        # inputs): the second time is the measured one
+        try:
+            drive(sandbox, entry if not (kind == 'compile' and entry in ('call', 'evaluate')) else 'run', case)
+        except BaseException:
+            pass
+        if kind != 'base':
+            # whatever the first time left patched is that execution's violation, not this one's
+            pass
     n_rt_before = len(runtime_feedbacks(report))
     envname = case.get('env', 'plain')
     with Env(envname):
@@ -697,7 +707,7 @@ def case_matrix(ctx, which):
                 for threaded in (False, True):
                     if m['kind'] == 'timeout' and (not threaded or which != 'C05'):
                         continue        # only a threaded execution has a time limit (and only C05 looks at what is left behind)
-                    for pos in ('first', 'after-failure', 'after-ok', 'after-clear_context'):
+                    for pos in ('first', 'after-failure', 'after-ok', 'after-clear_context', 'the-same-execution-before'):
                         for env in (ENVS if which == 'C05' else ENVS[:4]):
                             if env.startswith('failpoint') and m['kind'] in ('ok',):
                                 continue
